@@ -478,13 +478,64 @@ func (e *Engine) reach(roots ...*ssa.Function) map[*ssa.Function]bool {
 	return e.reach0(roots...)
 }
 
+// reach0: functions reachable from the roots over the call graph. Calls through a function-valued PARAMETER are
+// resolved per calling context (one level): when evalArguments(args, env, Eval) and evalArguments(args, env, EvalUpdate)
+// share a helper, the helper reached from the first call only calls Eval. Everything else uses the VTA call graph.
 func (e *Engine) reach0(roots ...*ssa.Function) map[*ssa.Function]bool {
 	seen := map[*ssa.Function]bool{}
-	var visit func(f *ssa.Function)
-	visit = func(f *ssa.Function) {
-		if f == nil || seen[f] {
+	visited := map[string]bool{}
+	type binding map[int][]*ssa.Function
+	keyOf := func(f *ssa.Function, bd binding) string {
+		k := fmt.Sprintf("%p", f)
+		var idx []int
+		for i := range bd {
+			idx = append(idx, i)
+		}
+		sort.Ints(idx)
+		for _, i := range idx {
+			k += fmt.Sprintf("|%d:", i)
+			var ns []string
+			for _, g := range bd[i] {
+				ns = append(ns, fmt.Sprintf("%p", g))
+			}
+			sort.Strings(ns)
+			k += strings.Join(ns, ",")
+		}
+		return k
+	}
+	// funcsOf: the functions a function-typed argument can be, when that is evident at the call site
+	var funcsOf func(v ssa.Value, f *ssa.Function, bd binding) ([]*ssa.Function, bool)
+	funcsOf = func(v ssa.Value, f *ssa.Function, bd binding) ([]*ssa.Function, bool) {
+		switch x := v.(type) {
+		case *ssa.Function:
+			return []*ssa.Function{x}, true
+		case *ssa.MakeClosure:
+			if g, ok := x.Fn.(*ssa.Function); ok {
+				return []*ssa.Function{g}, true
+			}
+		case *ssa.ChangeType:
+			return funcsOf(x.X, f, bd)
+		case *ssa.Parameter:
+			for i, p := range f.Params {
+				if p == x {
+					if gs, ok := bd[i]; ok {
+						return gs, true
+					}
+				}
+			}
+		}
+		return nil, false
+	}
+	var visit func(f *ssa.Function, bd binding)
+	visit = func(f *ssa.Function, bd binding) {
+		if f == nil {
 			return
 		}
+		k := keyOf(f, bd)
+		if visited[k] {
+			return
+		}
+		visited[k] = true
 		seen[f] = true
 		if f.Blocks == nil {
 			return
@@ -493,21 +544,44 @@ func (e *Engine) reach0(roots ...*ssa.Function) map[*ssa.Function]bool {
 			for _, in := range b.Instrs {
 				switch c := in.(type) {
 				case ssa.CallInstruction:
-					for _, g := range e.callees(c) {
-						if e.fnRole(g) != "" {
-							visit(g)
+					var targets []*ssa.Function
+					if gs, ok := funcsOf(c.Common().Value, f, bd); ok && !c.Common().IsInvoke() && c.Common().StaticCallee() == nil {
+						targets = gs
+					} else {
+						targets = e.callees(c)
+					}
+					for _, g := range targets {
+						if e.fnRole(g) == "" {
+							continue
 						}
+						var nb binding
+						for j, a := range c.Common().Args {
+							if _, isSig := a.Type().Underlying().(*types.Signature); !isSig {
+								continue
+							}
+							pj := j
+							if g.Signature.Recv() != nil && !c.Common().IsInvoke() && c.Common().StaticCallee() != nil {
+								pj = j // static method call: receiver is Args[0] and Params[0]
+							}
+							if gs, ok := funcsOf(a, f, bd); ok && pj < len(g.Params) {
+								if nb == nil {
+									nb = binding{}
+								}
+								nb[pj] = gs
+							}
+						}
+						visit(g, nb)
 					}
 				case *ssa.MakeClosure:
 					if g, ok := c.Fn.(*ssa.Function); ok {
-						visit(g)
+						visit(g, nil)
 					}
 				}
 			}
 		}
 	}
 	for _, r := range roots {
-		visit(r)
+		visit(r, nil)
 	}
 	return seen
 }
